@@ -203,8 +203,15 @@ func (vc *VC) intBinop(op string, x, y Val, t types.Type, overflow func(kind str
 			sh := uint(y.C.Uint64())
 			if !math && sh >= bits {
 				res.S = "0"
+			} else if nz := nzOf(x); nz != nil && !math && !signed && new(big.Int).Lsh(nz, sh).BitLen() <= int(bits) {
+				// no bit is shifted out: no wrap-around
+				res.S = app("*", x.S, bigNum(pow2(sh)))
+				res.NZ = new(big.Int).Lsh(nz, sh)
 			} else {
 				res.S = wrap(app("*", x.S, bigNum(pow2(sh))))
+				if nz != nil && !math {
+					res.NZ = new(big.Int).And(new(big.Int).Lsh(nz, sh), new(big.Int).Sub(pow2(bits), big.NewInt(1)))
+				}
 			}
 		} else {
 			// variable shift: ite chain over 0..bits-1
@@ -222,6 +229,9 @@ func (vc *VC) intBinop(op string, x, y Val, t types.Type, overflow func(kind str
 		if y.C != nil {
 			sh := uint(y.C.Uint64())
 			res.S = app("div", x.S, bigNum(pow2(sh)))
+			if nz := nzOf(x); nz != nil {
+				res.NZ = new(big.Int).Rsh(nz, sh)
+			}
 		} else {
 			n := bits
 			if math {
@@ -238,6 +248,24 @@ func (vc *VC) intBinop(op string, x, y Val, t types.Type, overflow func(kind str
 			bits, signed = 64, false
 		}
 		cx, cy := x.C, y.C
+		// operands whose possibly-non-zero bits are disjoint: | and ^ are +, & is 0 (exact)
+		if nzx, nzy := nzOf(x), nzOf(y); nzx != nil && nzy != nil && new(big.Int).And(nzx, nzy).Sign() == 0 {
+			switch op {
+			case "|", "^":
+				res.S = app("+", x.S, y.S)
+				res.NZ = new(big.Int).Or(nzx, nzy)
+				if x.C != nil && y.C != nil {
+					res.C = new(big.Int).Add(x.C, y.C)
+				}
+				return res
+			case "&":
+				res.S, res.C, res.NZ = "0", big.NewInt(0), big.NewInt(0)
+				return res
+			case "&^":
+				res.S, res.NZ = x.S, nzx
+				return res
+			}
+		}
 		if op == "&^" && cy != nil {
 			// x &^ c = x & ^c
 			mask := new(big.Int).Sub(pow2(bits), big.NewInt(1))
@@ -267,6 +295,12 @@ func (vc *VC) intBinop(op string, x, y Val, t types.Type, overflow func(kind str
 			} else {
 				res.S = fromUnsigned(r, signed, bits)
 			}
+			if op == "&" && cy.Sign() >= 0 {
+				res.NZ = new(big.Int).Set(cyu)
+				if nzx := nzOf(x); nzx != nil {
+					res.NZ.And(res.NZ, nzx)
+				}
+			}
 		} else {
 			if bits > 16 {
 				vc.unsupportedf("bitwise %s on two non-constant %d-bit operands", op, bits)
@@ -277,6 +311,25 @@ func (vc *VC) intBinop(op string, x, y Val, t types.Type, overflow func(kind str
 		panic(fmt.Sprintf("intBinop %s", op))
 	}
 	return res
+}
+
+// nzOf returns the mask of bits of a NON-NEGATIVE integer value that may be non-zero, or nil.
+func nzOf(v Val) *big.Int {
+	if v.C != nil {
+		if v.C.Sign() >= 0 {
+			return v.C
+		}
+		return nil
+	}
+	if v.NZ != nil {
+		return v.NZ
+	}
+	if v.T != nil && !isSpecInt(v.T) {
+		if lo, hi, signed, _ := intRange(v.T); lo != nil && !signed {
+			return hi // all bits of the unsigned type
+		}
+	}
+	return nil
 }
 
 func isSpecInt(t types.Type) bool {
@@ -310,11 +363,21 @@ func (vc *VC) convertInt(x Val, to types.Type, notrunc func(cond Term)) Val {
 	}
 	if flo != nil && !isSpecInt(x.T) && flo.Cmp(tlo) >= 0 && fhi.Cmp(thi) <= 0 {
 		res.S = x.S
+		res.NZ = nzOf(x)
+		return res
+	}
+	// a value whose possibly-set bits all fit the target is not changed by the conversion
+	if nz := nzOf(x); nz != nil && nz.Cmp(thi) <= 0 {
+		res.S = x.S
+		res.NZ = nz
 		return res
 	}
 	if notrunc != nil {
 		notrunc(inRange(to, x.S))
 	}
 	res.S = wrapTo(to, x.S)
+	if nz := nzOf(x); nz != nil && tlo.Sign() == 0 {
+		res.NZ = new(big.Int).And(nz, thi)
+	}
 	return res
 }
